@@ -36,7 +36,7 @@ COMPONENTS = {
 }
 ASSUMPTIONS = ["null inputs/outputs need no representation", "array values are checked for the presence of their entity, not element by element",
                "runs that fail are not exported (the statement speaks of completed runs)"]
-TIERS = {"quick": {"runs": 260, "budget_s": 110}, "thorough": {"runs": 20000, "budget_s": 900}}
+TIERS = {"quick": {"runs": 200, "budget_s": 75, "chunk": 3}, "thorough": {"runs": 20000, "budget_s": 900, "chunk": 8}}
 SIM_KW = {"max_steps": 3_000_000, "wall_cap": 120.0, "max_vtime": 1e7}
 
 
